@@ -18,9 +18,53 @@ TIERS = {'quick': {'cases': 6000, 'size': 260},
          'thorough': {'cases': 1200000, 'size': 400}}
 
 
+def late_start_case(ch, r):
+    """The peer speaks first: its SETTINGS and a PING are received (and ping() may be called) before the
+    application calls initiate_connection().  Whatever the library reported or accepted at that point it still
+    owes: the PING ACK for a reported PingReceived and the PING of a successful ping() reach the output exactly
+    once.  (Nothing is demanded if the library refuses to do either before the connection is started.)"""
+    from ..drive import make_conn, norm_event
+    client = ch.bool()
+    c = make_conn(client)
+    theirs = b'their' + bytes([ch.u8() | 1, 2, 4])
+    mine = b'mine' + bytes([ch.u8() & 0xfe, 1, 3, 5])
+    drain_early = ch.bool()       # the application reads data_to_send() after every step, or only at the end
+    total = b''
+
+    def step(fn, *a):
+        nonlocal total
+        try:
+            res = (True, fn(*a))
+        except Exception as e:   # noqa: BLE001 - a refusal before the start is allowed; it only lifts the demand
+            res = (False, e)
+        if drain_early:
+            total += c.data_to_send()
+        return res
+
+    ok1, evs = step(c.receive_data, (b'' if client else wire.PREFACE) + wire.settings() + wire.ping(theirs))
+    reported = ok1 and [norm_event(e) for e in evs if type(e).__name__ == 'PingReceived'] == [('PingReceived', theirs)]
+    ok2 = step(c.ping, mine)[0] if ch.bool() else None
+    how = 'initiate_upgrade_connection' if client and ch.chance(64) else 'initiate_connection'
+    ok3 = step(getattr(c, how))[0]
+    total += c.data_to_send()
+    r.step('late start', 'client' if client else 'server', 'drained after every step' if drain_early else
+           'drained at the end', 'PING received first', ok1, 'ping() first', ok2, how, ok3)
+    if reported and total.count(wire.ping(theirs, ack=True)) != 1:
+        r.violate('C26:reported-ping-not-acknowledged-once', '%d acknowledgements in %s' % (
+            total.count(wire.ping(theirs, ack=True)), total.hex()[:120]))
+    if ok2 and total.count(wire.ping(mine)) != 1:
+        r.violate('C26:ping-call-not-emitted-once', '%d PING frames in %s' % (total.count(wire.ping(mine)),
+                                                                               total.hex()[:120]))
+    r.nontrivial = reported
+    r.labels.add('peer-speaks-before-initiate_connection')
+    return r
+
+
 def run_case(data):
     ch = Chooser(data)
     r = Result()
+    if ch.chance(16):
+        return late_start_case(ch, r)
     client = ch.bool()
     s = Solo(client)
     s.start()
@@ -38,6 +82,18 @@ def run_case(data):
                 r.violate('C26:ping-call-non-bytes-accepted:%s' % type(odd).__name__, o.brief())
             if o.out:
                 r.violate('C26:ping-call-refused-but-emitted', o.out.hex())
+            continue
+        if ch.chance(10):
+            # another call is refused in between (debug data that does not fit a GOAWAY frame): the connection is
+            # what it was, pings keep being answered and sent
+            o = s.call('close_connection', 0, b'd' * ch.pick([16377, 20000]))
+            r.step('close_connection with oversize debug data', o.brief())
+            if o.ok:
+                r.violate('C26:oversize-goaway-accepted', '')
+                return r
+            if o.out:
+                r.violate('C26:refused-call-emitted', o.out.hex()[:40])
+            r.labels.add('refused-close_connection-in-between')
             continue
         if ch.chance(64):
             # local ping() call
